@@ -806,25 +806,59 @@ func (ls *LState) isStarted() bool {
 
 func (ls *LState) kill() {
 	ls.Dead = true
-	ls.releaseContext()
+	if n := ls.ctxNode; n != nil {
+		n.dead = true
+		n.release()
+	}
 }
 
-// releaseContext gives up the context a dead thread got from NewThread (cancelling it detaches it
-// from its parent context). Threads created by this thread derive their contexts from it, so the
-// release waits until the last of them has released its own: a coroutine must not be cancelled just
-// because the coroutine that created it has finished.
-func (ls *LState) releaseContext() {
-	if ls.ctxCancelFn == nil || ls.ctxChildren > 0 {
+// ctxNode is what is left of a thread for its derived context (NewThread): the cancel function and
+// the number of contexts derived from it that are still held. A dead thread gives its context up
+// (cancelling detaches it from its parent context), but threads created by it derive their contexts
+// from it, so the release waits until the last of them has released its own: a coroutine must not
+// be cancelled just because the coroutine that created it has finished. The nodes point to nodes,
+// not to threads: a dead thread is not kept alive by the threads it created.
+type ctxNode struct {
+	cancel   context.CancelFunc
+	parent   *ctxNode
+	children int
+	dead     bool
+}
+
+func (n *ctxNode) release() {
+	if n.cancel == nil || n.children > 0 {
 		return
 	}
-	ls.ctxCancelFn()
-	ls.ctxCancelFn = nil
-	if creator := ls.ctxCreator; creator != nil {
-		ls.ctxCreator = nil
-		creator.ctxChildren--
-		if creator.Dead {
-			creator.releaseContext()
+	n.cancel()
+	n.cancel = nil
+	if p := n.parent; p != nil {
+		n.parent = nil
+		p.children--
+		if p.dead {
+			p.release()
 		}
+	}
+}
+
+// deriveContext gives the thread a child of the context of from (and the polling loop).
+func (ls *LState) deriveContext(from *LState) context.CancelFunc {
+	var f context.CancelFunc
+	ls.mainLoop = mainLoopWithContext
+	ls.ctx, f = context.WithCancel(from.ctx)
+	ls.ctxCancelFn = f
+	ls.ctxNode = &ctxNode{cancel: f, parent: from.ctxNode}
+	if from.ctxNode != nil {
+		from.ctxNode.children++
+	}
+	return f
+}
+
+// joinContext is called when ls resumes th. A thread that has no context (it was created before
+// SetContext, or by such a thread) joins the context of the thread that runs it: the context
+// belongs to the state, not to the moment a coroutine object happened to be created.
+func (ls *LState) joinContext(th *LState) {
+	if th.ctx == nil && ls.ctx != nil {
+		th.deriveContext(ls)
 	}
 }
 
@@ -1483,11 +1517,7 @@ func (ls *LState) NewThread() (*LState, context.CancelFunc) {
 	thread.Env = ls.Env
 	var f context.CancelFunc = nil
 	if ls.ctx != nil {
-		thread.mainLoop = mainLoopWithContext
-		thread.ctx, f = context.WithCancel(ls.ctx)
-		thread.ctxCancelFn = f
-		thread.ctxCreator = ls
-		ls.ctxChildren++
+		f = thread.deriveContext(ls)
 	}
 	return thread, f
 }
@@ -2149,6 +2179,7 @@ func (ls *LState) Resume(th *LState, fn *LFunction, args ...LValue) (ResumeState
 // th is killed, ls is the running thread again and the error is returned.
 func (ls *LState) enterThread(th *LState, setup func()) (err *ApiError) {
 	th.Parent = ls
+	ls.joinContext(th)
 	ls.G.CurrentThread = th
 	th.Panic = panicWithoutTraceback
 	defer func() {
